@@ -6,69 +6,69 @@ SCORE_RANGE = "substitution scores, gap and clip penalties small enough that sum
 
 CFG = {
     "C01": {
-        "mechanisms": ["calls:custom", "calls:global", "calls:semiglobal", "calls:local", "calls:empty_sequence", "calls:on_reused_object", "oracle_cross_checked"],
+        "mechanisms": ["calls:sequence_longer_than_60", "calls:y_longer_than_65536", "calls:custom", "calls:global", "calls:semiglobal", "calls:local", "calls:empty_sequence", "calls:on_reused_object", "oracle_cross_checked"],
         "thorough_passes": ["plain", "asan"],
         "assumptions": [SCORE_RANGE],
     },
     "C02": {
-        "mechanisms": ["banded.tb_left_band", "banded.tb_out_of_band_cell", "banded.cell_budget", "partial_band_calls", "band_not_containing_origin",
+        "mechanisms": ["calls:y_longer_than_65536", "banded.tb_left_band", "banded.tb_out_of_band_cell", "banded.cell_budget", "partial_band_calls", "band_not_containing_origin",
                        "band_not_containing_corner", "band_excluded_optimum", "full_band_calls", "sentinel_results", "get_mut_scoring_edits"],
         "thorough_passes": ["plain", "asan"],
         "assumptions": ["backbones handed to the advanced entry points stay inside their documented contract (sorted true k-mer matches or subsets, valid chains)", SCORE_RANGE],
     },
     "C03": {
-        "mechanisms": ["sais.recurse", "sais.u16_alphabet", "sampled_sa.extra_row", "sa:recursion_depth_2", "lcp_with_values_beyond_i8", "suffix_array_int_calls"],
+        "mechanisms": ["sa:texts_with_more_than_65536_lms_substrings", "sais.recurse", "sais.u16_alphabet", "sampled_sa.extra_row", "sa:recursion_depth_2", "lcp_with_values_beyond_i8", "suffix_array_int_calls"],
         "thorough_passes": ["plain", "asan", "miri"],
         "assumptions": ["texts end with a sentinel that is their smallest symbol (the documented precondition)"],
     },
     "C04": {
-        "mechanisms": ["occ.hi_checkpoint_back", "occ.equal_checkpoints", "occ_tables_with_k_above_64", "bwt_inversions_checked"],
+        "mechanisms": ["texts_longer_than_65536", "occ.hi_checkpoint_back", "occ.equal_checkpoints", "occ_tables_with_k_above_64", "bwt_inversions_checked"],
         "thorough_passes": ["plain", "asan", "miri"],
         "assumptions": ["the suffix array handed to bwt() is the one computed by suffix_array() (C03 decides that one)"],
     },
     "C05": {
-        "mechanisms": ["results:complete", "results:partial", "results:absent", "concurrent_histories", "sampled_sa.extra_row", "occ.hi_checkpoint_back"],
+        "mechanisms": ["texts_longer_than_65536", "results:complete", "results:partial", "results:absent", "concurrent_histories", "sampled_sa.extra_row", "occ.hi_checkpoint_back"],
         "thorough_passes": ["plain", "asan", "tsan", "miri"],
         "miri_seeds": 4,
         "pass_cases": {"miri": 14, "tsan": 400},
         "assumptions": ["patterns are non-empty, sentinel-free and over the index alphabet"],
     },
     "C06": {
-        "mechanisms": ["smems_calls_returning_2", "extensions_to_absent_strings", "extensions_to_occurring_strings"],
+        "mechanisms": ["indexes_over_more_than_65536_symbols", "smems_calls_returning_2", "extensions_to_absent_strings", "extensions_to_occurring_strings"],
         "thorough_passes": ["plain", "asan"],
         "assumptions": ["text = s$revcomp(s)$... over ACGTNacgtn as FMDIndex::from requires"],
     },
     "C07": {
-        "mechanisms": ["avl.rotate_left", "avl.rotate_right", "avl_double_rotations", "find_mut_queries", "array_unindexed_refusals", "array_unindexed_refusals_after_reinsert", "array_tree_sizes_swept", "histories:annot_map"],
+        "mechanisms": ["trees_with_more_than_65536_entries", "avl.rotate_left", "avl.rotate_right", "avl_double_rotations", "find_mut_queries", "array_unindexed_refusals", "array_unindexed_refusals_after_reinsert", "array_tree_sizes_swept", "histories:annot_map"],
         "thorough_passes": ["plain", "asan"],
         "assumptions": ["intervals and queries have positive width"],
     },
     "C08": {
-        "mechanisms": ["exhaustive_patterns", "patterns_of_length_64"],
+        "mechanisms": ["texts_longer_than_65536", "exhaustive_patterns", "patterns_of_length_64"],
         "thorough_passes": ["plain", "asan"],
         "exhaustive_counter": "exhaustive_patterns",
         "exhaustive_desc": "all patterns over {a,b} of length 1..=5 (quick) / 1..=6 (thorough) x all texts over {a,b} of length 0..=8 / 0..=10, every matcher",
         "assumptions": ["patterns are non-empty and at most 64 symbols for ShiftAnd/BNDM"],
     },
     "C09": {
-        "mechanisms": ["myers_long.block_add", "myers_long.block_drop", "ukkonen.lastk_drop", "distance_pairs", "hamming_pairs"],
+        "mechanisms": ["texts_longer_than_65536", "myers_long.block_add", "myers_long.block_drop", "ukkonen.lastk_drop", "distance_pairs", "hamming_pairs"],
         "thorough_passes": ["plain", "asan", "miri"],
         "pass_cases": {"miri": 28},
         "assumptions": ["k <= 255 for the single-word implementation", "Ukkonen cost functions return values >= 0 with cost(a,a) = 0 for the unit-cost runs"],
     },
     "C10": {
-        "mechanisms": ["myers_tb.ring_wrap", "searches_with_hit_before_column_m", "searches_with_ring_wrap", "lazy_queries", "api:next", "api:next_path", "api:next_alignment", "api:next_end+start+path"],
+        "mechanisms": ["texts_longer_than_65536", "myers_tb.ring_wrap", "searches_with_hit_before_column_m", "searches_with_ring_wrap", "lazy_queries", "api:next", "api:next_path", "api:next_alignment", "api:next_end+start+path"],
         "thorough_passes": ["plain", "asan", "miri"],
         "pass_cases": {"miri": 24},
         "assumptions": ["lazy queries of the block-based implementation are made at reported hit ends only (its documentation does not promise more)"],
     },
     "C11": {
-        "mechanisms": ["roundtrip_cases", "truncation_cases", "junk_cases", "truncated_fastq_records_accepted"],
+        "mechanisms": ["fastq_records_spanning_256+_lines", "roundtrip_cases", "truncation_cases", "junk_cases", "truncated_fastq_records_accepted"],
         "thorough_passes": ["plain", "asan"],
         "assumptions": ["record domain: id without whitespace, description without line breaks, sequence over letters and * - . (nothing the formats cannot represent)"],
     },
     "C12": {
-        "mechanisms": ["fasta_idx.zero_base_read", "histories_on_truncated_files", "truncation_errors_reported", "errors_reported:unknown-name", "errors_reported:unknown-rid",
+        "mechanisms": ["files_with_more_than_65536_lines", "fasta_idx.zero_base_read", "histories_on_truncated_files", "truncation_errors_reported", "errors_reported:unknown-name", "errors_reported:unknown-rid",
                        "errors_reported:stop-beyond-length", "errors_reported:start-after-stop"],
         "thorough_passes": ["plain", "asan"],
         "assumptions": ["the .fai is the one samtools would write for the file (LINEBASES 0 for records without bases)"],
@@ -86,12 +86,12 @@ CFG = {
         "assumptions": ["S <= 4 states and T <= 7 observations so that all S^T paths can be enumerated"],
     },
     "C15": {
-        "mechanisms": ["binary_operand_pairs", "lists", "integration_cases", "conversion_values"],
+        "mechanisms": ["conversions_below_linear_f64_range", "binary_operand_pairs", "lists", "integration_cases", "conversion_values"],
         "thorough_passes": ["plain", "asan"],
         "assumptions": ["relative bounds are evaluated only where the linear image of the largest operand is a normal f64; lists have at most 256 operands"],
     },
     "C16": {
-        "mechanisms": ["linear_graph_alignments", "growth_histories", "histories_adding_the_reference_itself", "additions:global_banded", "additions:semiglobal", "additions:local", "additions:custom"],
+        "mechanisms": ["graphs_with_more_than_256_nodes", "linear_alignments_longer_than_100", "linear_graph_alignments", "growth_histories", "histories_adding_the_reference_itself", "additions:global_banded", "additions:semiglobal", "additions:local", "additions:custom"],
         "thorough_passes": ["plain", "asan", "miri"],
         "pass_cases": {"miri": 24},
         "assumptions": ["linear-graph exactness is checked with default (MIN_SCORE) clip penalties: the property quantifies over match function and gap penalty only"],
@@ -103,18 +103,18 @@ CFG = {
         "assumptions": [],
     },
     "C18": {
-        "mechanisms": ["bitenc.fill_partial_block_or_block_crossing", "bitenc_histories_width_3", "bitenc_histories_width_7", "smallints_histories:(i8,isize)", "fenwick_histories:max<(u32,u32)>"],
+        "mechanisms": ["containers_with_more_than_65536_elements", "bitenc.fill_partial_block_or_block_crossing", "bitenc_histories_width_3", "bitenc_histories_width_7", "smallints_histories:(i8,isize)", "fenwick_histories:max<(u32,u32)>"],
         "thorough_passes": ["plain", "asan", "miri"],
         "pass_cases": {"miri": 60},
         "assumptions": ["Fenwick max trees use T::default() as identity (unsigned payloads), as documented"],
     },
     "C19": {
-        "mechanisms": ["indexes_non_pow2_alphabet", "indexes_pow2_alphabet", "exact_match_lists_checked", "qgram_code_sequences", "chain_cases"],
+        "mechanisms": ["qgrams_with_more_than_65535_occurrences", "indexes_non_pow2_alphabet", "indexes_pow2_alphabet", "exact_match_lists_checked", "qgram_code_sequences", "chain_cases"],
         "thorough_passes": ["plain", "asan"],
         "assumptions": ["q*ceil(log2|A|) <= 16 for the index (table size), <= 64 for the rank codes", "match lists handed to the chaining functions are sorted and duplicate free"],
     },
     "C20": {
-        "mechanisms": ["complement_bytes_enumerated", "orf_sequences_with_nested_starts", "alphabet_cases", "gc_sequences"],
+        "mechanisms": ["orf_sequences_longer_than_65536", "complement_bytes_enumerated", "orf_sequences_with_nested_starts", "alphabet_cases", "gc_sequences"],
         "thorough_passes": ["plain", "asan"],
         "exhaustive_counter": "complement_bytes_enumerated",
         "exhaustive_desc": "dna::complement and rna::complement on all 256 byte values",
